@@ -1,4 +1,3 @@
-(* WIP *)
 (* C34 — Accepted output is flushed and every dropped message is reported.
    Statements only; proofs are [exact lemma] or vm_compute witnesses. *)
 From MV Require Import Base.Val Session.Pkt IO.WriteBuf IO.WriteBufProofs.
